@@ -126,6 +126,14 @@ class _Shape(ast.NodeTransformer):
 
     def visit_If(self, node: ast.If):
         self.generic_visit(node)
+        # K13: `if A: if B: BODY` (no else on either, the inner if is the only statement) is `if A and B: BODY`
+        while not node.orelse and len(node.body) == 1 and isinstance(node.body[0], ast.If) and not node.body[0].orelse \
+                and not _has_walrus(node.test) and not _has_walrus(node.body[0].test):
+            inner = node.body[0]
+            left = node.test.values if isinstance(node.test, ast.BoolOp) and isinstance(node.test.op, ast.And) else [node.test]
+            right = inner.test.values if isinstance(inner.test, ast.BoolOp) and isinstance(inner.test.op, ast.And) else [inner.test]
+            node.test = ast.copy_location(ast.BoolOp(op=ast.And(), values=list(left) + list(right)), node.test)
+            node.body = inner.body
         t = node.test
         if isinstance(t, ast.UnaryOp) and isinstance(t.op, ast.Not) and node.orelse \
                 and not (len(node.orelse) == 1 and isinstance(node.orelse[0], ast.If)) and not _has_walrus(t):
